@@ -1,7 +1,7 @@
 (* Props/C20.v — generators and aggregating constructors build what they advertise.
    Only statements, `exact`, Print Assumptions, and concrete Examples (non-vacuity). *)
 From Coq Require Import List Arith ZArith Bool QArith Qcanon Sorting.Sorted.
-From PV Require Import Base.Index Base.Sum Base.Perm Np.Array Model.Sparse Model.Repr Model.Harness Model.C20Gen Model.C20Harness Proofs.C20Proofs Proofs.C20Teneye Proofs.C20TeneyeGen Proofs.C20Guards Proofs.C20W3.
+From PV Require Import Base.Index Base.Sum Base.Perm Np.Array Model.Sparse Model.Repr Model.Harness Model.C20Gen Model.C20Harness Proofs.C20Proofs Proofs.C20Teneye Proofs.C20TeneyeGen Proofs.C20Guards Proofs.C20W3 Proofs.C20TeneyeEntry.
 Import ListNotations.
 Local Open Scope nat_scope.
 
@@ -120,13 +120,16 @@ Theorem C20_sprand_post : forall (nz : nat) (s : shape) (draws : list (list (lis
 Proof. exact (sprand_wf isz). Qed.
 End C20_sprand.
 
-(* nnz = min(request, distinct rows of the final draw), and nnz = request EXACTLY WHEN the request is zero or one of
-   the ten draws has pairwise distinct scaled rows (each draw REPLACES the previous one) *)
+(* the requested count, for the code as repaired (finding A-46, /repo bc5da93: union of all consumed draws as a fallback):
+   nnz = min(request, number of DISTINCT rows over ALL consumed draws); hence nnz = request EXACTLY WHEN the consumed
+   draws together hold that many distinct rows - in particular whenever the request is zero or one single draw of the
+   (at most ten) has pairwise distinct scaled rows *)
 Theorem C20_sprand_count : forall (nz : nat) (s : shape) (draws : list (list (list Z))),
-  Forall (fun d => length d = nz) draws -> 10 <= length draws ->
-  length (sprand_subs nz s draws) = length (fst (redraw 10 nz s [] draws)) /\
-  length (sprand_subs nz s draws) = Nat.min nz (length (fst (redraw 10 nz s [] draws))) /\
-  (length (sprand_subs nz s draws) = nz <-> nz = 0 \/ Exists (distinct_rows s) (firstn 10 draws)).
+  let pool := pool_rows s (firstn (sprand_consumed nz s draws) draws) in
+  length (sprand_subs nz s draws) = Nat.min nz (length (dedup pool)) /\
+  (length (sprand_subs nz s draws) = nz <-> nz <= length (dedup pool)) /\
+  (Forall (fun d => length d = nz) draws -> 10 <= length draws ->
+   nz = 0 \/ Exists (distinct_rows s) (firstn 10 draws) -> length (sprand_subs nz s draws) = nz).
 Proof. exact sprand_count. Qed.
 
 (* seeded reproducibility: the stored subscripts and the number of draws consumed are FUNCTIONS of the captured
@@ -205,9 +208,10 @@ Theorem C20_stored_order :
 Proof. exact (conj (@agg_sorted) sprand_sorted). Qed.
 Print Assumptions C20_stored_order.
 
-(* ---------------------------------------------------------------- what the code does not guarantee (known findings) *)
-(* "the requested number of distinct nonzeros" for EVERY admissible stream of draws is FALSE for the algorithm as
-   coded (finding A-46): ten draws that each repeat a row end one short. The exact guarantee is C20_sprand_count. *)
+(* ---------------------------------------------------------------- what the code does not guarantee *)
+(* "the requested number of distinct nonzeros" for EVERY admissible stream of draws stays FALSE for the repaired code too:
+   ten draws that all hit one and the same cell end short (no bounded number of draws with replacement can guarantee the
+   request). What IS guaranteed now is C20_sprand_count: nnz = min(request, distinct rows over all consumed draws). *)
 Theorem C20_requested_count_refuted : ~ requested_count_stmt.
 Proof. exact requested_count_refuted. Qed.
 
@@ -363,22 +367,43 @@ Theorem C20_aggregator_request : forall (so : option (list Z)) (N : nat) (subs :
 Proof. exact aggregator_z_spec. Qed.
 Print Assumptions C20_aggregator_request.
 
-(* the PROPOSED repair of finding A-46 (fixes/C20-A-46-union-fallback.diff; model C20Gen.sprand_subs_union), the draws
-   as inputs: whenever the loop as coded ends with enough distinct rows the result is EXACTLY today's (same seeded
-   outputs, same draws consumed); otherwise it holds min(request, number of distinct rows over ALL consumed draws) rows,
-   each a row of a consumed draw; always strictly ascending; distinct and inside the shape for valid draws.
-   (C20_requested_count_refuted stays true of it: ten draws that all hit one row end short.) *)
+(* the repair of finding A-46 (/repo bc5da93; model C20Gen.sprand_subs), the draws as inputs: whenever the loop ends with
+   enough distinct rows the result is EXACTLY the loop's last candidate as before the repair (same seeded outputs, same
+   draws consumed); otherwise it holds min(request, number of distinct rows over ALL consumed draws) rows, each a row of a
+   consumed draw; never fewer rows than the loop's last candidate alone; always strictly ascending; distinct and inside the
+   shape for valid draws. *)
 Theorem C20_sprand_union_repair : forall (nz : nat) (s : shape) (draws : list (list (list Z))),
   let r := redraw 10 nz s [] draws in
   let pool := pool_rows s (firstn (snd r) draws) in
-  (nz <= length (fst r) -> sprand_subs_union nz s draws = sprand_subs nz s draws) /\
+  (nz <= length (fst r) -> sprand_subs nz s draws = sprand_loop_subs nz s draws) /\
   (length (fst r) < nz ->
-     length (sprand_subs_union nz s draws) = Nat.min nz (length (dedup_first pool)) /\
-     (forall i, In i (sprand_subs_union nz s draws) -> In i pool)) /\
-  StronglySorted idx_lt (sprand_subs_union nz s draws) /\
-  (Forall (fun d => 0 < d) s -> Forall (valid_draw s) draws -> good s (sprand_subs_union nz s draws)).
+     length (sprand_subs nz s draws) = Nat.min nz (length (dedup pool)) /\
+     (forall i, In i (sprand_subs nz s draws) -> In i pool)) /\
+  length (sprand_loop_subs nz s draws) <= length (sprand_subs nz s draws) /\
+  StronglySorted idx_lt (sprand_subs nz s draws) /\
+  (Forall (fun d => 0 < d) s -> Forall (valid_draw s) draws -> good s (sprand_subs nz s draws)).
 Proof. exact sprand_union_spec. Qed.
 Print Assumptions C20_sprand_union_repair.
+
+(* ---------------------------------------------------------------- teneye entries, EVERY even order (wave 3b) *)
+(* pyttb's entry A[i] = teneye_count i / m!.  For every even order m >= 2 and every size: an entry whose subscript holds
+   some value an ODD number of times is zero; every order: the super-diagonal entries are m!/m! = 1 *)
+Theorem C20_teneye_odd_multiplicity_zero : forall (i : idx) (v : nat), 2 <= length i -> Nat.even (length i) = true ->
+  Nat.even (count_occ Nat.eq_dec i v) = false -> teneye_count i = 0.
+Proof. exact teneye_count_odd. Qed.
+Theorem C20_teneye_diagonal : forall a m : nat, teneye_count (repeat a m) = fact m.
+Proof. exact teneye_count_diag. Qed.
+(* the general entry formula (C20Gen.teneye_formula: 0 if a multiplicity c_v is odd, else 2^(m/2) (m/2)! prod_v (c_v-1)!!)
+   is stated, NOT proved in general (compared with pyttb's count on every generated teneye case); proved: every subscript
+   of order <= 4, and for every even order the subscripts with an odd multiplicity and the constant subscripts *)
+Definition C20_teneye_entry_formula_stmt : Prop := teneye_entry_formula_stmt.
+Theorem C20_teneye_entry_formula_partial : forall i : idx, Nat.even (length i) = true ->
+  length i <= 4 \/ (exists v, Nat.even (count_occ Nat.eq_dec i v) = false) \/ (exists a, i = repeat a (length i)) ->
+  teneye_count i = teneye_formula i.
+Proof. exact teneye_entry_formula_partial. Qed.
+Print Assumptions C20_teneye_odd_multiplicity_zero.
+Print Assumptions C20_teneye_diagonal.
+Print Assumptions C20_teneye_entry_formula_partial.
 
 (* ---------------------------------------------------------------- non-vacuity: concrete, non-symmetric instances *)
 Example C20_example_from_function :
@@ -445,8 +470,18 @@ Example C20_example_union_repair :
   let h := (2 ^ 52)%Z in
   let da := [[0; h]; [1; h + 5]]%Z in let db := [[h; h]; [h + 1; h + 3]]%Z in
   let ds := [da; db; da; db; da; db; da; db; da; db] in
-  sprand_subs 2 [2; 3]%nat ds = [[1; 1]]%nat /\ sprand_subs_union 2 [2; 3]%nat ds = [[0; 1]; [1; 1]]%nat /\
+  sprand_loop_subs 2 [2; 3]%nat ds = [[1; 1]]%nat /\ sprand_subs 2 [2; 3]%nat ds = [[0; 1]; [1; 1]]%nat /\
   sprand_consumed 2 [2; 3]%nat ds = 10%nat /\
-  sprand_subs_union 2 [2; 3]%nat (repeat da 10) = [[0; 1]]%nat /\
-  sprand_subs_union 2 [2; 3]%nat ([[0; h]; [h; 7]]%Z :: ds) = sprand_subs 2 [2; 3]%nat ([[0; h]; [h; 7]]%Z :: ds).
+  sprand_subs 2 [2; 3]%nat (repeat da 10) = [[0; 1]]%nat /\
+  sprand_subs 2 [2; 3]%nat ([[0; h]; [h; 7]]%Z :: ds) = sprand_loop_subs 2 [2; 3]%nat ([[0; h]; [h; 7]]%Z :: ds) /\
+  sprand_subs 2 [2; 3]%nat ([[0; h]; [h; 7]]%Z :: ds) = [[0; 1]; [1; 0]]%nat.
 Proof. exact sprand_union_example. Qed.
+
+(* teneye entries: order 6, a subscript with an odd multiplicity, a diagonal one, a mixed one (48 * 3 matchings); the
+   closed form on the same subscripts; a TEST of the closed form on every subscript of orders 2, 4 (sizes <= 3), 6 (size 2) *)
+Example C20_example_teneye_entries :
+  map teneye_count [[0; 1; 1; 1; 0; 0]; [1; 1; 1; 1; 1; 1]; [1; 0; 1; 1; 0; 1]] = [0; 720; 144] /\
+  map teneye_formula [[0; 1; 1; 1; 0; 0]; [1; 1; 1; 1; 1; 1]; [1; 0; 1; 1; 0; 1]] = [0; 720; 144] /\
+  forallb (fun mn => forallb (fun i => teneye_count i =? teneye_formula i) (allsubs (repeat (snd mn) (fst mn))))
+          [(2, 3); (4, 3); (6, 2); (0, 2)] = true.
+Proof. exact teneye_entries_example. Qed.
